@@ -207,12 +207,13 @@ type reopenStep struct {
 }
 
 type c14Case struct {
-	K  string             `json:"k"` // "fault" | "reopen"
+	K  string             `json:"k"` // "fault" | "bigfault" | "reopen"
 	Qs [][]common.JFilter `json:"qs"`
 	// fault
 	Pre    [][]common.JEvent `json:"pre,omitempty"`
 	B      []common.JEvent   `json:"b,omitempty"`
 	NCalls int               `json:"ncalls"`
+	Ks     []int             `json:"ks,omitempty"` // bigfault: the sampled fault positions
 	Before []qres            `json:"before,omitempty"`
 	Fault  [][]qres          `json:"fault,omitempty"`
 	Retry  [][]qres          `json:"retry,omitempty"`
@@ -296,10 +297,20 @@ func c14RunFault(c *c14Case) {
 	}
 	c.Twice = answers(ctx, db, seed, c.Qs)
 	db.Close()
-	// every fault position
-	c.Fault = make([][]qres, c.NCalls)
-	c.Retry = make([][]qres, c.NCalls)
-	for k := 0; k < c.NCalls; k++ {
+	// every fault position (fault), or a sample of them that depends on the
+	// number of driver calls only (bigfault)
+	ks := make([]int, 0, c.NCalls)
+	if c.K == "bigfault" {
+		ks = c14SamplePositions(c.NCalls)
+		c.Ks = ks
+	} else {
+		for k := 0; k < c.NCalls; k++ {
+			ks = append(ks, k)
+		}
+	}
+	c.Fault = make([][]qres, len(ks))
+	c.Retry = make([][]qres, len(ks))
+	for i, k := range ks {
 		db, seed := freshWithPre(ctx, c.Pre)
 		fctl.arm(k)
 		err := sqlite.VerifInsertEvents(ctx, db, seed, toEvents(c.B))
@@ -309,15 +320,32 @@ func c14RunFault(c *c14Case) {
 			db.Close()
 			return
 		}
-		c.Fault[k] = answers(ctx, db, seed, c.Qs)
+		c.Fault[i] = answers(ctx, db, seed, c.Qs)
 		if err := sqlite.VerifInsertEvents(ctx, db, seed, toEvents(c.B)); err != nil {
 			c.Panic = fmt.Sprintf("retry after fault at call %d failed: %v", k, err)
 			db.Close()
 			return
 		}
-		c.Retry[k] = answers(ctx, db, seed, c.Qs)
+		c.Retry[i] = answers(ctx, db, seed, c.Qs)
 		db.Close()
 	}
+}
+
+// c14SamplePositions: for a big batch every position would cost one fresh
+// database each; begin, a prepare, the first exec, the middle, two positions in
+// the last quarter (past the 100th event of a batch of up to 135) and the last
+// three calls (two execs, commit).
+func c14SamplePositions(n int) []int {
+	cand := []int{0, 3, 6, n / 2, 3 * n / 4, 11 * n / 12, n - 3, n - 2, n - 1}
+	seen := map[int]bool{}
+	out := []int{}
+	for _, k := range cand {
+		if k >= 0 && k < n && !seen[k] {
+			seen[k] = true
+			out = append(out, k)
+		}
+	}
+	return out
 }
 
 func c14RunReopen(c *c14Case) {
@@ -384,9 +412,9 @@ func c14Run(c *c14Case) {
 			c.Qs[i] = []common.JFilter{}
 		}
 	}
-	c.Before, c.Fault, c.Retry, c.Clean, c.Twice, c.Seeds, c.NCalls = nil, nil, nil, nil, nil, nil, 0
+	c.Before, c.Fault, c.Retry, c.Clean, c.Twice, c.Seeds, c.NCalls, c.Ks = nil, nil, nil, nil, nil, nil, 0, nil
 	switch c.K {
-	case "fault":
+	case "fault", "bigfault":
 		if c.Pre == nil {
 			c.Pre = [][]common.JEvent{}
 		}
@@ -430,7 +458,37 @@ func c14Queries(g *sqlGen) [][]common.JFilter {
 	return qs
 }
 
-func c14Gen(r *common.Rand) c14Case {
+// c14GenBig: one batch of 101..135 distinct events (all classes, so that
+// replacements and deletion requests happen inside the batch), after at most
+// one small earlier batch; the handler's default EventBulkInsertNum is 1000,
+// so batches of this size are ordinary.
+func c14GenBig(r *common.Rand) c14Case {
+	g := &sqlGen{r: r, twoOnly: true}
+	np := 101 + r.Intn(35)
+	g.makePool(np, true)
+	var c c14Case
+	c.K = "bigfault"
+	ids := []string{}
+	for _, i := range []int{0, 49, 98, 99, 100, np - 1} {
+		ids = append(ids, sqlID(i))
+	}
+	c.Qs = [][]common.JFilter{{{}}, {{IDs: &ids}, {Kinds: &[]int64{0, 30000}, Authors: &[]string{sqlPKs[0]}}}}
+	c.Pre = [][]common.JEvent{}
+	if r.Chance(50) {
+		pre := []common.JEvent{}
+		for i, n := 0, 1+r.Intn(4); i < n; i++ {
+			pre = append(pre, g.pool[r.Intn(np)])
+		}
+		c.Pre = append(c.Pre, pre)
+	}
+	c.B = append([]common.JEvent{}, g.pool...)
+	return c
+}
+
+func c14Gen(r *common.Rand, idx int) c14Case {
+	if idx%40 == 7 {
+		return c14GenBig(r)
+	}
 	g := &sqlGen{r: r, twoOnly: true}
 	np := 2 + r.Intn(8)
 	g.makePool(np, true)
@@ -478,7 +536,7 @@ func init() {
 		}
 		root := common.NewRand(seed)
 		for i := 0; i < n; i++ {
-			c := c14Gen(root.Fork(uint64(i)))
+			c := c14Gen(root.Fork(uint64(i)), i)
 			c14Run(&c)
 			out.Emit(c)
 		}
